@@ -870,6 +870,7 @@ func (pc *PeerConnection) updateConnectionState(
 		connectionState = PeerConnectionStateConnected
 	}
 
+	verifhook.Point("pc.ucs.computed")
 	if pc.connectionState.Load() == connectionState {
 		return
 	}
@@ -2518,6 +2519,7 @@ func (pc *PeerConnection) close(shouldGracefullyClose bool) error { //nolint:cyc
 		pc.isGracefullyClosingOrClosed = true
 	}
 	pc.mu.Unlock()
+	verifhook.Point("pc.close.swapped")
 
 	if isAlreadyClosingOrClosed {
 		if !shouldGracefullyClose {
@@ -2528,6 +2530,7 @@ func (pc *PeerConnection) close(shouldGracefullyClose bool) error { //nolint:cyc
 		// to happen and then return.
 		if isAlreadyGracefullyClosingOrClosed {
 			<-pc.isGracefulCloseDone
+			verifhook.Point("pc.close.woke.graceful")
 
 			return nil
 		}
@@ -2535,6 +2538,7 @@ func (pc *PeerConnection) close(shouldGracefullyClose bool) error { //nolint:cyc
 		// normal closure is done since there are extra steps to take with a
 		// graceful close.
 		<-pc.isCloseDone
+		verifhook.Point("pc.close.woke.close")
 	} else {
 		defer close(pc.isCloseDone)
 	}
@@ -2555,6 +2559,7 @@ func (pc *PeerConnection) close(shouldGracefullyClose bool) error { //nolint:cyc
 		if !shouldGracefullyClose {
 			return nil
 		}
+		verifhook.Point("pc.close.graceful")
 
 		// these are all non-canon steps
 		var gracefulCloseErrors []error
@@ -2612,6 +2617,7 @@ func (pc *PeerConnection) close(shouldGracefullyClose bool) error { //nolint:cyc
 	}
 
 	// https://www.w3.org/TR/webrtc/#dom-rtcpeerconnection-close (step #11)
+	verifhook.Point("pc.close.torndown")
 	pc.updateConnectionState(pc.ICEConnectionState(), pc.dtlsTransport.State())
 
 	closeErrs = append(closeErrs, doGracefulCloseOps()...)
